@@ -28,6 +28,59 @@ class Seams:
                 setattr(module, attr, old)
 
 
+class SimLock:
+    """threading.Lock for the package under simulation.  Non-blocking acquires behave like the real thing.  A BLOCKING acquire
+    of a lock that is held hands the baton to the other runnable tasks (they may release it); when nobody is left who could
+    release it the simulator raises Deadlock instead of hanging - inside a request handler that surfaces as an error response."""
+
+    def __init__(self):
+        import _thread
+        self._l = _thread.allocate_lock()
+
+    def acquire(self, blocking=True, timeout=-1):
+        if self._l.acquire(False):
+            return True
+        if not blocking:
+            return False
+        from .threads import Scheduler, Deadlock
+        tries = 0
+        while True:
+            s = Scheduler.active
+            if s is None or s.current is None or not s._others(s.current):
+                if timeout is not None and timeout >= 0:
+                    return False
+                raise Deadlock("blocking acquire of a lock that nobody is left to release")
+            s.yield_now("lock_wait")
+            if self._l.acquire(False):
+                return True
+            tries += 1
+            if tries > 500:
+                if timeout is not None and timeout >= 0:
+                    return False
+                raise Deadlock("blocking acquire of a lock that is not released (500 hand-overs)")
+
+    def release(self):
+        self._l.release()
+
+    def locked(self):
+        return self._l.locked()
+
+    def __enter__(self):
+        self.acquire()
+        return self
+
+    def __exit__(self, *a):
+        self.release()
+        return False
+
+
+def _lock_factory():
+    import sys
+    import _thread
+    caller = sys._getframe(1).f_globals.get("__name__", "")
+    return SimLock() if caller.startswith("BPTK_Py") else _thread.allocate_lock()
+
+
 class FakeUuid:
     """uuid.uuid1().hex -> inst-0001, inst-0002 ... (creation ordinal, deterministic)"""
 
@@ -76,6 +129,8 @@ def installed(clock=None, uuid=None, fs=None, threads=None, quiet=True, global_t
     s = Seams()
     _pristine_mutable_defaults()
     try:
+        # locks created by the package while it is under simulation are simulated locks (see SimLock); everybody else's are real
+        s.set(threading, "Lock", _lock_factory)
         if clock is not None:
             fdm = fake_datetime_module(clock)
             s.set(srv, "datetime", fdm)
